@@ -9,6 +9,7 @@ import logging
 import math
 import cbor2
 import re
+from collections.abc import Mapping
 
 from suit_generator.exceptions import GeneratorError
 
@@ -237,7 +238,9 @@ class CacheFromEnvelope:
         except Exception:
             raise GeneratorError("The provided envelope/dependency envelope is not a valid envelope!")
 
-        if isinstance(envelope, cbor2.CBORTag) and isinstance(envelope.value, dict):
+        if isinstance(envelope, cbor2.CBORTag) and isinstance(envelope.value, Mapping):
+            # cbor2 >= 6 decodes maps inside tags as immutable mappings
+            envelope = cbor2.CBORTag(envelope.tag, dict(envelope.value))
             integrated = [k for k in envelope.value.keys() if isinstance(k, str)]
         else:
             raise GeneratorError("The provided envelope/dependency envelope is not a valid envelope!")
